@@ -382,3 +382,19 @@ def nkeys(v, lits):
         else:
             out |= nkeys(v, conj(d, p))
     return out
+
+
+def share(ctx, ob, prop, oids, cap=150):
+    """Import obligations decided by another property's rule module into `ob` (one necessary condition relied upon by two properties)."""
+    import importlib
+    from .report import Ctx
+    sub = Ctx(prop, ctx.tier, ctx.seed, ctx.repo)
+    importlib.import_module("lsa.rules.%s" % prop.lower()).run(sub)
+    for o in sub.obligations:
+        if o.oid in oids:
+            for i in o.instances[:cap]:
+                ob.instance(o.oid + ": " + i["what"], i["detail"] or "ok")
+            for r in o.refutations:
+                ob.refute(o.oid + ":" + r["key"], r["msg"], r.get("loc"))
+            for u in o.unknowns:
+                ob.unknown(u)
